@@ -41,10 +41,109 @@ let run (fn : string) (a : string list) : string * string =
   | "find", s :: p :: r -> show pair (find_plain_im (arg_s s) (arg_s p) (opt arg_i r)), "ok:" ^ pair (find_spec (arg_s s) (arg_s p) (opt arg_i r))
   | _ -> failwith ("bad case: " ^ fn)
 
+(* ---------------------------------------------------------------- tables *)
+let arg_v (a : string) : value =
+  match a.[0] with
+  | 'n' -> VNil
+  | 'b' -> VBool (a = "b1")
+  | 'i' -> VInt (arg_i a)
+  | 's' -> VStr (arg_s a)
+  | _ -> failwith ("bad value " ^ a)
+let show_v = function
+  | VNil -> "n"
+  | VBool b -> if b then "b1" else "b0"
+  | VInt z -> vi z
+  | VStr s -> vs s
+let contents (s : string) : (z * value) list =
+  if s = "-" || s = "" then [] else
+  List.map (fun kv -> match String.split_on_char '=' kv with
+    | [k; v] -> (arg_i k, arg_v v)
+    | _ -> failwith ("bad contents " ^ kv)) (String.split_on_char ';' s)
+let terrs = function
+  | TERange2 -> "err:range2"
+  | TETooLarge -> "err:toolarge"
+  | TEWrap -> "err:wrap"
+  | TETooMany -> "err:toomany"
+  | TEInvalid k -> "err:invalid:" ^ hex_of_z k
+  | TEInjected -> "err:injected"
+let tids = function T1 -> "1" | T2 -> "2"
+let show_ev = function
+  | ELen t -> "l" ^ tids t
+  | EGet (t, k) -> "g" ^ tids t ^ ":" ^ hex_of_z k
+  | ESet (t, k, v) -> "s" ^ tids t ^ ":" ^ hex_of_z k ^ ":" ^ show_v v
+let dump (m : z -> value) (keys : z list) : string =
+  let l = List.filter_map (fun k -> match m k with VNil -> None | v -> Some (vi k ^ "=" ^ show_v v)) keys in
+  if l = [] then "-" else String.concat ";" l
+let show_out f = function
+  | ORet a -> "ok:" ^ f a
+  | OFail e -> terrs e
+  | OSpin -> "spin"
+let vals l = String.concat "," (List.map show_v l)
+
+let run_tab (op : string) (toks : string list) : string * string =
+  let kv = Hashtbl.create 8 in
+  let rec split = function
+    | "--" :: r -> r
+    | t :: r -> (match String.index_opt t '=' with
+        | Some i -> Hashtbl.replace kv (String.sub t 0 i) (String.sub t (i + 1) (String.length t - i - 1))
+        | None -> ()); split r
+    | [] -> [] in
+  let args = split toks in
+  let get k d = try Hashtbl.find kv k with Not_found -> d in
+  let a1 = contents (get "t1" "-") and a2 = contents (get "t2" "-") in
+  let l1 = z_of_hex (get "len1" "0") and l2 = z_of_hex (get "len2" "0") in
+  let keys = List.map z_of_hex (split_on ',' (get "keys" "")) in
+  let inj = nat_of_int (int_of_string (get "err" "0")) in
+  let same = get "same" "1" = "1" in
+  let st = mkstate a1 a2 l1 l2 in
+  let im (type a) (f : a -> string) (p : a prog) : string =
+    let ((o, st'), log) = run_log p st inj [] in
+    String.concat "/" [show_out f o; dump st'.m1 keys; dump st'.m2 keys;
+                       (match List.rev_map show_ev log with [] -> "-" | l -> String.concat "," l)] in
+  let sres (o : string) (m1' : z -> value) (m2' : z -> value) = String.concat "/" [o; dump m1' keys; dump m2' keys] in
+  let m1 = st.m1 and m2 = st.m2 in
+  let oi n = match List.nth_opt args n with Some a when a <> "n" -> Some (arg_i a) | _ -> None in
+  let small a b = Z.leb (Z.sub b a) (z_of_int 1000) in
+  match op with
+  | "insert" ->
+    let pos, v = (match args with [p; v] -> Some (arg_i p), arg_v v | [v] -> None, arg_v v | _ -> failwith "insert args") in
+    let p = (match pos with Some p -> p | None -> Z.add l1 (z_of_int 1)) in
+    im (fun () -> "") (insert_im pos v),
+    (if insert_pos_ok l1 p then sres "ok:" (insert_spec m1 l1 p v) m2 else sres "err:" m1 m2)
+  | "remove" ->
+    let pos = oi 0 in
+    let p = (match pos with Some p -> p | None -> l1) in
+    im show_v (remove_im pos),
+    (if remove_pos_ok l1 p then sres ("ok:" ^ show_v (m1 p)) (remove_spec m1 l1 p) m2 else sres "err:" m1 m2)
+  | "move" ->
+    let f, e, t = (match args with f :: e :: t :: _ -> arg_i f, arg_i e, arg_i t | _ -> failwith "move args") in
+    im (fun () -> "") (move_im f e t (if same then T1 else T2)),
+    (if move_ok f e t then
+       (if same then sres "ok:" (move_spec m1 m1 f e t) m2 else sres "ok:" m1 (move_spec m1 m2 f e t))
+     else sres "err:" m1 m2)
+  | "unpack" ->
+    let i = (match oi 0 with Some i -> i | None -> z_of_int 1) and j = (match oi 1 with Some j -> j | None -> l1) in
+    im vals (unpack_im (oi 0) (oi 1)),
+    (if small i j then sres ("ok:" ^ vals (unpack_spec m1 i j)) m1 m2 else sres "big" m1 m2)
+  | "concat" ->
+    let sep = (match args with a :: _ when a <> "n" -> Some (arg_s a) | _ -> None) in
+    let i = (match oi 1 with Some i -> i | None -> z_of_int 1) and j = (match oi 2 with Some j -> j | None -> l1) in
+    im vs (concat_im sep (oi 1) (oi 2)),
+    (if small i j then
+       (match concat_spec m1 (match sep with Some s -> s | None -> []) i j with
+        | Inl b -> sres ("ok:" ^ vs b) m1 m2
+        | Inr k -> sres ("err:invalid:" ^ hex_of_z k) m1 m2)
+     else sres "big" m1 m2)
+  | "pack" ->
+    let vl = List.map arg_v args in
+    let (pm, n) = pack_spec vl in
+    im vi (pack_im vl), sres ("ok:" ^ vi n) pm m2
+  | _ -> failwith ("bad table op " ^ op)
+
 let () =
   iter_lines (fun line ->
     match split_on ' ' line with
     | id :: fn :: args ->
-      let im, s = run fn args in
+      let im, s = if fn.[0] = 'T' then run_tab (String.sub fn 1 (String.length fn - 1)) args else run fn args in
       print_endline (id ^ " IM=" ^ im ^ " S=" ^ s)
     | _ -> ())
